@@ -27,9 +27,9 @@ ASSUMPTIONS = ['mpmath 50-digit arithmetic is exact relative to float64',
                'rounding bounds: c*eps*cond(S) for mean/innovation, Joseph-form bound for P; '
                'cases with eps*cond(S) > 1e-5 are counted as ill-conditioned-skipped for the '
                'mean/innovation comparison only']
-REQUIRED_OBS = ['returned_arrays_overwritten', 'exactly_zero_residuals', 'partly_zero_residuals', 'post_checked', 'mean_compared', 'innovation_compared', 'sequential_compared',
+REQUIRED_OBS = ['diffuse_prior_cases', 'redundant_selection_rows', 'returned_arrays_overwritten', 'exactly_zero_residuals', 'partly_zero_residuals', 'post_checked', 'mean_compared', 'innovation_compared', 'sequential_compared',
                 'info_form_compared', 'ambient_calls_checked']
-REQUIRED_CLASSES = {'all': ['well', 'illcond', 'rankdef_P', 'rankdef_H', 'offdiag_S', 'ambient']}
+REQUIRED_CLASSES = {'all': ['well', 'illcond', 'rankdef_P', 'rankdef_H', 'offdiag_S', 'selection', 'diffuse', 'ambient']}
 EPS = np.finfo(float).eps
 
 # fixed constants (calibrated on the unchanged tree: worst observed ratio to the
@@ -146,6 +146,40 @@ def setup():
 def gen(case):
     rng = np.random.Generator(np.random.PCG64(case['seed']))
     cls = case['cls']
+    if cls == 'selection':
+        # Round 6: redundant sensors - every row of a WIDE H picks one state (one non-zero entry), two or more rows pick the SAME state
+        n = int(rng.integers(3, 13))
+        m = int(rng.integers(2, min(n - 1, 6) + 1))
+        pick = rng.integers(0, n, m)
+        pick[int(rng.integers(1, m))] = pick[0]
+        if m > 3 and rng.random() < 0.5:
+            pick[-1] = pick[1]
+        H = np.zeros((m, n))
+        H[np.arange(m), pick] = np.where(rng.random(m) < 0.5, 1.0, rng.uniform(0.5, 2.0, m) * rng.choice([-1, 1], m))
+        A = rng.standard_normal((n, n))
+        scale = 10 ** rng.uniform(-3, 3)
+        P = (A @ A.T + 0.3 * np.eye(n)) * scale
+        P = 0.5 * (P + P.T)
+        R = np.diag(10 ** rng.uniform(-2, 1, m)) * scale
+        sizes = [1] * m if rng.random() < 0.7 else [m]
+        x = rng.standard_normal(n) * np.sqrt(scale)
+        z = H @ x + rng.standard_normal(m) * np.sqrt(np.diag(H @ P @ H.T + R))
+        return x, P, z, H, R, sizes
+    if cls == 'diffuse':
+        # Round 6: a diffuse prior - every state observed (square, well-conditioned H) with noise 10..19 decades below the prior variance: the
+        # posterior is at the level of R and must come out with RELATIVE accuracy (checked in run_case against the 50-digit posterior)
+        n = m = int(rng.integers(1, 6))
+        H = np.eye(n)[rng.permutation(n)] + (0.25 * rng.standard_normal((n, n)) if rng.random() < 0.6 else 0.0)
+        A = rng.standard_normal((n, n))
+        scale = 10 ** rng.uniform(-2, 6)
+        P = (A @ A.T / n + np.eye(n)) * scale
+        P = 0.5 * (P + P.T)
+        B = rng.standard_normal((n, n))
+        R = (B @ B.T / n + np.eye(n)) * scale * 10 ** -rng.uniform(10, 19)
+        R = 0.5 * (R + R.T)
+        x = rng.standard_normal(n) * np.sqrt(scale)
+        z = H @ (x + rng.standard_normal(n) * np.sqrt(scale))
+        return x, P, z, H, R, [m]
     n = int(rng.integers(1, 21))
     m = int(rng.integers(1, 7))
     if cls == 'offdiag_S':
@@ -217,7 +251,7 @@ def gen(case):
 
 def cases(seed, tier):
     n = 640 if tier == 'quick' else 24000
-    classes = ['well', 'illcond', 'rankdef_P', 'rankdef_H', 'offdiag_S', 'scaled_R']
+    classes = ['well', 'illcond', 'rankdef_P', 'rankdef_H', 'offdiag_S', 'scaled_R', 'selection', 'diffuse']
     out = [dict(seed=int(seed) * 1000003 + i, cls=classes[i % len(classes)])
            for i in range(n)]
     # ambient: the same contract left installed while the real filters run on seeded schedules, so the
@@ -286,6 +320,16 @@ def run_case(case):
                     obs=obs)
     ref = LAST.get('ref')
     out = list(PENDING)
+    if case['cls'] == 'diffuse' and ref is not None:
+        obs['diffuse_prior_cases'] = 1
+        pr = np.abs(ref['P']).max()
+        rel = float(np.abs(Pj - ref['P']).max() / max(pr, 1e-300))
+        obs['max_diffuse_rel_err_x1e12'] = int(min(rel, 1.0) * 1e12)
+        if not rel <= 1e-6 or not (np.diag(Pj) > 0).all():
+            out.append(vio('diffuse_prior_cov', f'prior variance {np.abs(P).max():.1e}, noise {np.abs(R).max():.1e}: the posterior covariance (level {pr:.1e}) is off by '
+                           f'{rel:.2e} relative (diag {np.diag(Pj).tolist()} vs {np.diag(ref["P"]).tolist()})'))
+    if case['cls'] == 'selection':
+        obs['redundant_selection_rows'] = 1
     # sequential processing of the independent blocks in random order
     if len(sizes) > 1 and ref is not None and not out:
         rng = np.random.Generator(np.random.PCG64(case['seed'] + 17))
